@@ -24,6 +24,9 @@ type SpecFun struct {
 	Params []SpecParam
 	Result string
 	File   string
+	// lemmas (contract expressions over the parameter names): instantiated as facts at every application of the
+	// function, and proved once per run against the function definitions (obligations spec/lemma:<name>#k)
+	Lemmas []string
 }
 
 type implInfo struct {
@@ -332,6 +335,7 @@ func (eng *Engine) isPureExternal(name string) bool {
 
 // ---------- spec library ----------
 
+var reSpecLemma = regexp.MustCompile(`^;;\s*lemma\s+(\S+)\s*:\s*(.*)$`)
 var reSpecSig = regexp.MustCompile(`^;;\s*fun\s+(\S+)\s*(.*)\s+(\S+)\s*$`)
 var reSpecParam = regexp.MustCompile(`\((\S+)\s+(\S+)\)`)
 
@@ -356,6 +360,12 @@ func (eng *Engine) loadSpecs(dir string) error {
 					sf.Params = append(sf.Params, SpecParam{pm[1], pm[2]})
 				}
 				eng.specFuns[sf.Name] = sf
+				continue
+			}
+			if m := reSpecLemma.FindStringSubmatch(line); m != nil {
+				if sf := eng.specFuns[m[1]]; sf != nil {
+					sf.Lemmas = append(sf.Lemmas, strings.TrimSpace(m[2]))
+				}
 				continue
 			}
 			if strings.HasPrefix(strings.TrimSpace(line), ";") {
